@@ -13,12 +13,15 @@
 (*         destinations (addRoute) or index (modDest, delDest ...),         *)
 (*   opt   THE parameter that is degenerate in this command ("none": all     *)
 (*         parameters typical), val the class its value is drawn from,       *)
-(*   flag  spool (addRoute) / dropRaw (addAgg) / blocking (addGnet).         *)
+(*   flag  spool (addRoute) / dropRaw (addAgg) / blocking (addGnet),         *)
+(*   pk    addRoute: every destination of the route has pickle=true (FALSE:  *)
+(*         the option is left to the driver, mostly absent).                 *)
 (* Inside a class the concrete bytes are chosen by the driver (seeded).      *)
 EXTENDS Integers, Sequences, FiniteSets
 
 Cmd(op, via, rtype, key, n, opt, val, flag) ==
-    [op |-> op, via |-> via, rtype |-> rtype, key |-> key, n |-> n, opt |-> opt, val |-> val, flag |-> flag]
+    [op |-> op, via |-> via, rtype |-> rtype, key |-> key, n |-> n, opt |-> opt, val |-> val, flag |-> flag,
+     pk |-> FALSE]
 
 \* value classes: missing, empty, zero, one, typical, huge (large but representable),
 \* wrap (a duration whose conversion to nanoseconds wraps to <= 0), neg (negative-looking),
@@ -27,6 +30,15 @@ NumClasses == {"missing", "empty", "zero", "one", "typical", "huge", "neg", "non
 DurClasses == NumClasses \cup {"wrap"}
 StrClasses == {"missing", "empty", "typical", "huge", "nonnum"}
 RexClasses == {"empty", "typical", "badregex", "huge"}
+\* classes of a replacement / output format (rewriter `new`, aggregation `format`) by the metric NAME they
+\* produce for the traffic the rule matches - none of these names passes the input validation, but rewriting
+\* happens after validation and aggregation output bypasses it:
+\*   emptyexp  the name becomes empty (reference to a group the regex does not have, or the empty string
+\*             replacing the whole name): the line that reaches the routes has two fields
+\*   spacename the name contains white space (more than three fields)
+\*   dotsname  the name consists of dots only
+\*   longname  the name is very long (the matched name many times over)
+NameClasses == {"emptyexp", "spacename", "dotsname", "longname"}
 
 RTypes   == {"sendAllMatch", "sendFirstMatch", "consistentHashing"}
 Vias     == {"cmd", "toml"}
@@ -38,12 +50,12 @@ BlackCmds == {Cmd("addBlack", via, "-", "-", 0, m, v, FALSE) :
                  v \in {"missing", "typical", "badregex", "huge"}}
 
 RewOV == ({"none"} \X {"typical"}) \cup ({"old", "new", "not"} \X (StrClasses \cup {"badregex"}))
-         \cup ({"max"} \X NumClasses)
+         \cup ({"max"} \X NumClasses) \cup ({"new"} \X NameClasses)
 RewCmds == {Cmd("addRewriter", via, "-", "-", 0, ov[1], ov[2], FALSE) : via \in Vias, ov \in RewOV}
 
 AggOV == ({"none"} \X {"typical"}) \cup ({"fun"} \X {"missing", "nonnum"})
          \cup ({"regex"} \X {"missing", "empty", "badregex", "huge"})
-         \cup ({"fmt"} \X {"missing", "huge"})
+         \cup ({"fmt"} \X ({"missing", "huge"} \cup NameClasses))
          \cup ({"interval", "wait"} \X DurClasses) \cup ({"cache"} \X {"nonnum"})
 AggCmds == {Cmd("addAgg", via, "-", "-", 0, ov[1], ov[2], dr) : via \in Vias, ov \in AggOV, dr \in BOOLEAN}
 
@@ -51,8 +63,8 @@ DestOV == (DestDur \X DurClasses) \cup (DestSize \X NumClasses)
           \cup ({"addr"} \X StrClasses) \cup ({"regex", "prefix", "routeregex"} \X RexClasses)
           \cup ({"pickle", "spool"} \X {"nonnum", "empty"}) \cup ({"key"} \X {"missing", "huge", "nonnum"})
 RouteCmds ==
-    {Cmd("addRoute", via, rt, k, n, "none", "typical", sp) :
-        via \in Vias, rt \in RTypes, k \in {"k1", "k2"}, n \in 0..3, sp \in BOOLEAN}
+    {[Cmd("addRoute", via, rt, k, n, "none", "typical", sp) EXCEPT !.pk = p] :
+        via \in Vias, rt \in RTypes, k \in {"k1", "k2"}, n \in 0..3, sp \in BOOLEAN, p \in BOOLEAN}
     \cup {Cmd("addRoute", via, rt, "k1", 2, ov[1], ov[2], sp) :
         via \in Vias, rt \in RTypes, ov \in DestOV, sp \in BOOLEAN}
 
@@ -90,8 +102,9 @@ Commands == BlackCmds \cup RewCmds \cup AggCmds \cup RouteCmds \cup GnetCmds \cu
 \* cheap structural membership tests (trace validation)
 Ops == {"addBlack", "addRewriter", "addAgg", "addRoute", "addGnet", "modDest", "modRoute", "delRoute",
         "delDest", "delAgg", "delBlack", "delRewriter", "garbage", "view"}
-AllClasses == DurClasses \cup StrClasses \cup RexClasses
+AllClasses == DurClasses \cup StrClasses \cup RexClasses \cup NameClasses
 IsCommand(c) == /\ c.op \in Ops /\ c.via \in {"cmd", "toml", "api"} /\ c.n \in 0..9 /\ c.flag \in BOOLEAN
+                /\ c.pk \in BOOLEAN /\ (c.pk => c.op = "addRoute")
                 /\ c.key \in {"k1", "k2", "nokey", "-"} /\ c.rtype \in RTypes \cup {"GrafanaNet", "-"}
                 /\ (c.op = "garbage" \/ c.val \in AllClasses)
 
@@ -99,11 +112,18 @@ IsCommand(c) == /\ c.op \in Ops /\ c.via \in {"cmd", "toml", "api"} /\ c.n \in 0
 Typical == {c \in Commands : /\ c.opt = "none" /\ c.op \in {"addRoute", "addGnet", "addAgg", "addRewriter"}
                              /\ (c.op = "addRoute" => c.n = 2) /\ c.via = "cmd" /\ c.key \in {"k1", "-"}}
 
+\* rules that turn the names of the traffic they match into degenerate names, and the routes such
+\* names are sent to (plain and pickle=true destinations connected to a sink, grafanaNet)
+NameCmds   == {c \in RewCmds \cup AggCmds : c.val \in NameClasses}
+SinkRoutes == {c \in Typical : c.op \in {"addRoute", "addGnet"}}
+
 \* ------------------------------------------------------------------ input side
-PlainCls  == {"wellformed", "emptyline", "nonewline", "onefield", "twofields", "fourfields", "nonnumvalue",
+\* rulematch: well-formed lines whose names are matched by the rewriters / aggregations of the history
+\* (the driver derives them from the rule text it generated), so that what the rules produce really flows
+PlainCls  == {"wellformed", "rulematch", "emptyline", "nonewline", "onefield", "twofields", "fourfields", "nonnumvalue",
               "nonnumts", "hugevalue", "negts", "toolong", "nul", "binary", "badutf8", "tags", "m20", "crlf",
               "spaces", "mixed"}
-PickleCls == {"wellformed", "truncprefix", "lengtcap", "lenzero", "truncpayload", "badprefix", "nonlist",
+PickleCls == {"wellformed", "rulematch", "truncprefix", "lengtcap", "lenzero", "truncpayload", "badprefix", "nonlist",
               "wrongarity", "wrongtypes", "unknownopcode", "random", "nested", "biglong", "badmemo",
               "stackunderflow", "protohigh", "lenlies", "mixed"}
 UdpCls    == {"wellformed", "emptypacket", "nonewline", "binary", "maxsize", "manylines", "picklebytes"}
@@ -111,6 +131,7 @@ AmqpCls   == {"wellformed", "emptybody", "longline", "binary", "manylines", "non
 Item(p, c) == [proto |-> p, cls |-> c]
 Items == {Item("plain", c) : c \in PlainCls} \cup {Item("pickle", c) : c \in PickleCls}
          \cup {Item("udp", c) : c \in UdpCls} \cup {Item("amqp", c) : c \in AmqpCls}
+RuleItems == {Item("plain", "rulematch"), Item("pickle", "rulematch")}
 
 IsItem(it) == \/ (it.proto = "plain" /\ it.cls \in PlainCls)
               \/ (it.proto = "pickle" /\ it.cls \in PickleCls)
